@@ -96,6 +96,8 @@ for _m in ("getFrames", "getSamples"):
     _reg("qwav." + _m, "query", "qwav", _method(_m))
 _reg("qwav.duration", "query", "qwav", lambda w, r, a, k: r.duration)
 _reg("audio.getDuration", "query", None, lambda w, r, a, k: audio.getDuration(*a, **k))
+_reg("audio.convertToBytes", "query", None, lambda w, r, a, k: audio.convertToBytes(tuple(a[0]), a[1]))
+_reg("audio.convertFromBytes", "query", None, lambda w, r, a, k: audio.convertFromBytes(a[0], a[1]))
 
 
 # ---- environment / simulator actions
@@ -113,6 +115,13 @@ def _env_drop(world, recv, a, k):
                 pass
 
 
+def _env_list(world, recv, a, k):
+    """a plain Python list that lives on the heap, so that the SAME list object
+    can be handed to several calls (constructor / new(entries=...)) and is
+    itself observed by the frame oracle"""
+    return list(a[0])
+
+
 def _env_fault(world, recv, a, k):
     world.fs.fault = (a[0], a[1])
 
@@ -121,6 +130,7 @@ def _env_unfault(world, recv, a, k):
     world.fs.fault = None
 
 
+_reg("env.list", "env", None, _env_list)
 _reg("env.put", "env", None, _env_put)
 _reg("env.drop", "env", None, _env_drop)
 _reg("env.fault", "env", None, _env_fault)
@@ -191,6 +201,7 @@ def invoke(world, out):
     except Exception as e:  # noqa: BLE001 - the outcome *is* the exception
         out.exc = e
     out.prints = SINK.lines - before
-    if out.ok and out.step.get("out") is not None and out.op.kind in ("ctor", "copy", "open", "alias"):
+    if out.ok and out.step.get("out") is not None and (out.op.kind in ("ctor", "copy", "open", "alias")
+                                                       or out.op.name == "env.list"):
         world.heap[out.step["out"]] = out.result
     return out
